@@ -58,6 +58,15 @@ var witnesses = []witness{
 	{`(?i)^k$`, []string{kelvin, "k", "K"}, "", `K ~ k`},
 	{`(?i)ks`, []string{kelvin + longS, "KS", "ks"}, "", `non-ASCII input must bypass the ASCII-only matchers`},
 	{`bc$`, []string{"bc\nx", "abc\n"}, "", `(?m)$ is not a text anchor in the default build`},
+	// classes without an ASCII member: an invalid UTF-8 byte decodes as U+FFFD of width 1, so the minimum match
+	// length of such a class is 1 byte, whatever the encoded length of its smallest rune
+	{`[^\x00-\x7f]`, []string{"\xff", "\xc3", "é", "a\xff", "x"}, "", `min length of a non-ASCII class is one byte`},
+	{`(caf)([^[:ascii:]])`, []string{"caf\xc3", "café", "cafe", "caf\xff"}, "", `captures behind a non-ASCII class`},
+	{`a[é-ü]`, []string{"aé", "a\xc3", "a\xff", "aü"}, "", `range class of two-byte runes`},
+	{`[^\x00-\x7f]{2}`, []string{"\xff\xff", "é", "\xc3\xa9", "\xff"}, "", `repeated non-ASCII class`},
+	{`(?i)^café$`, []string{"CAFÉ", "café", "Café", "cafe"}, "", `exact match must use Unicode simple folding like (?i)`},
+	{`(?i)^привет$`, []string{"ПРИВЕТ", "привет", "Привет"}, "", `Cyrillic fold partners in the exact-match path`},
+	{`(?i)^ok$`, []string{"O" + kelvin, "ok", "OK", "o" + kelvin}, "", `KELVIN SIGN folds to k in the exact-match path`},
 	{`^bc`, []string{"x\nbc"}, "", `(?m)^ is not a text anchor in the default build`},
 	{`(?i)ab|bc`, []string{"AB", "BC", "xBC"}, "", `shift table must know upper-case bytes`},
 	{`(?i)abc.`, []string{"ABCx", "abcx"}, "", `minimum-length guard at exactly the minimum`},
